@@ -12,7 +12,7 @@ from lib.coqterm import cbytes, cbool, cZ, cN, clist, copt
 
 ID = "C47"
 QUICK_N = 800
-THOROUGH_N = 12000
+THOROUGH_N = 6000
 SHARD = 100
 COQ_PRELUDE = "From MV Require Import Model.WebFlowEdit.\n"
 RULE = ("A case = flow recipe (response present or not, request headers incl. Host/transfer-encoding/duplicate "
@@ -700,6 +700,22 @@ def classify(case, obs):
         except _Unmodelled:
             inm = False
         tags.append("in-model" if inm else "oracle-only")
+        b, a = st["before"]["cur"]["request"], st["after"]["cur"]["request"]
+        doc = put[1] if put[0] == "json" and isinstance(put[1], dict) else {}
+        sub = lambda part: doc.get(part) if isinstance(doc.get(part), dict) else {}
+        if b["authority"] != a["authority"]:
+            tags.append("authority-rewritten")
+        hosth = lambda r: [v for n, v in r["headers"] if n is not None and bytes.fromhex(n).lower() == b"host"]
+        if st["status"] == 200 and hosth(b) and hosth(b) != hosth(a) and "headers" not in sub("request"):
+            tags.append("host-header-rewritten")
+        for part in ("request", "response"):
+            mb, ma = st["before"]["cur"][part], st["after"]["cur"][part]
+            if mb and ma:
+                if mb["trailers"] is None and ma["trailers"] is not None:
+                    tags.append("trailers-created")
+                ct = lambda m: any(n is not None and bytes.fromhex(n).lower() == b"content-type" for n, _ in m["headers"])
+                if not ct(mb) and ct(ma) and "content" in sub(part) and "headers" not in sub(part):
+                    tags.append("text-utf8-fallback")
         for p in _invalid_parts(put)[:2]:
             tags.append("invalid:" + p.split(":")[0])
     if not case["rec"].get("resp", True):
